@@ -40,6 +40,10 @@ func init() {
 			{ID: "R05m", Floor: 2 + 2 + 4, Doc: "put de-duplication decides by CID/multihash, so no block that was put is left out of the finalized file (= R04a)", Run: ruleR04a},
 			{ID: "R05n", Floor: 1, Doc: "what a finalized header announces as index is one of the two real index formats (= R11o)", Run: ruleR11o},
 			{ID: "R05o", Floor: 1, Doc: "a failed Finalize is reported by Close, not replaced by the outcome of closing the file (= R16l)", Run: ruleR16l},
+			{ID: "R05p", Floor: 2, Doc: "the pragma is the first thing written: in ReadWrite.initWithRoots and StorageCar.init no payload-header write can precede the pragma write (the pragma goes through the caller's sequential writer)", Run: ruleR05p},
+			{ID: "R05q", Floor: 1, Doc: "the fully-indexed characteristic is set from the StoreIdentityCIDs option, wherever it is set (= R10o)", Run: ruleR10o},
+			{ID: "R05r", Floor: 2, Doc: "the position-tracking writers advance by what the underlying writer reported written, so DataSize and IndexOffset describe the bytes that are there (= R16d)", Run: ruleR16d},
+			{ID: "R05s", Floor: 1, Doc: "the deferred writer hands every put to the underlying writer, whose de-duplication options decide (= R20f)", Run: ruleR20f},
 		},
 	})
 }
@@ -477,13 +481,36 @@ func ruleR05b(c *Ctx, r *Report) {
 
 // headerCellReceives: cell (an *Header alloc, or a FieldAddr base) has the given value stored into it.
 func headerCellReceives(cell ssa.Value, v ssa.Value) bool {
+	return headerCellReceivesD(cell, v, 0)
+}
+
+// ... directly, or through whole-struct copies (`r0 = header; header = r0` is what the inlining of a
+// helper that takes the header by value and returns the updated copy leaves behind)
+func headerCellReceivesD(cell ssa.Value, v ssa.Value, depth int) bool {
 	al, ok := cell.(*ssa.Alloc)
-	if !ok {
+	if !ok || depth > 4 {
 		return false
 	}
 	for _, st := range storesTo(al) {
 		if canon(st.Val) == canon(v) {
 			return true
+		}
+		// a value merged from copies, or a plain copy of another cell
+		for _, leaf := range phiLeaves(st.Val) {
+			if leaf == canon(v) {
+				return true
+			}
+		}
+		vals := []ssa.Value{st.Val}
+		if ph, ok := st.Val.(*ssa.Phi); ok {
+			vals = ph.Edges
+		}
+		for _, sv := range vals {
+			if l, ok := sv.(*ssa.UnOp); ok && l.Op == token.MUL && l.X != ssa.Value(al) {
+				if headerCellReceivesD(l.X, v, depth+1) {
+					return true
+				}
+			}
 		}
 	}
 	return false
